@@ -9,7 +9,8 @@ Open Scope Z_scope.
 Record case := {
   c_size : nat; c_slide : nat; c_exact : bool;
   c_in : list (elem (Z * Z));           (* (key, value) *)
-  c_out : list (elem (Z * list Z))      (* (key, collected window) *)
+  c_out : list (elem (Z * list Z));     (* (key, collected window) *)
+  c_aggs : list (N * list (elem (Z * Z)))   (* the same input through the other window aggregators: (aggregator, output) *)
 }.
 
 (** the accumulator used by the harness: collect the window into a vector *)
@@ -74,7 +75,25 @@ Definition rounds_ok (c : case) : bool :=
       (keys_of (c_in c)))
     (seq 0 (length ins)).
 
+(** every other aggregator is applied to exactly the elements of the group: its output is
+    the collected-window output with the aggregate of each window in place of the window *)
+Definition zfold1 (f : Z -> Z -> Z) (l : list Z) : Z := match l with [] => 0 | x :: l' => fold_left f l' x end.
+Definition agg_fn (a : N) (l : list Z) : Z :=
+  match a with
+  | 0%N => Z.of_nat (length l)            (* count *)
+  | 1%N | 6%N | 7%N => fold_left Z.add l 0   (* sum, fold_first(+), collect_vec + map(sum) *)
+  | 2%N => zfold1 Z.max l                 (* max *)
+  | 3%N => zfold1 Z.min l                 (* min *)
+  | 4%N => hd 0 l                         (* first *)
+  | _ => last l 0                         (* last *)
+  end.
+Definition agg_out_ok (c : case) (ao : N * list (elem (Z * Z))) : bool :=
+  list_eqb (elem_eqb (pair_eqb Z.eqb Z.eqb))
+    (canon_keyed (map (emap (fun kl : Z * list Z => (fst kl, agg_fn (fst ao) (snd kl)))) (strip_fb (c_out c))))
+    (canon_keyed (strip_fb (snd ao))).
+
 Definition prop_ok (c : case) : bool :=
+  forallb (agg_out_ok c) (c_aggs c) &&
   rounds_ok c &&
   forallb (fun k =>
     list_eqb (elem_eqb (list_eqb Z.eqb)) (proj_out k (c_out c)) (expected_key c k))
